@@ -50,9 +50,17 @@ def _relabel_overflow(r):
 def _relabel_hang(r):
     """where the property itself says 'does not hang' (job kv hang_is_failure=1): a run the watchdog had to stop is a
     failure when its backtrace shows it stuck inside the repository's code (not inside z3 or the harness)."""
-    if r.status != "TIMEOUT" or not r.cmd or str(r.cmd[1].get("hang_is_failure", "")) != "1" or not r.crash:
+    mode = str(r.cmd[1].get("hang_is_failure", "")) if r.cmd else ""
+    if r.status != "TIMEOUT" or mode not in ("1", "read") or not r.crash:
         return
     frames = [x for x in r.crash if "(" in x and "crash_handler" not in x]
+    if mode == "read":
+        # the planner's search need not terminate, reading a program must: stuck inside core::read / solver::read and not inside solve()
+        if any("_ZN5ratio6solver5solveEv" in x for x in frames) or any("libz3" in x for x in frames[:8]):
+            return
+        if any(re.search(r"_ZN5ratio(4core|6solver)4readE", x) for x in frames):
+            r.status = "HANG"
+        return
     inner = frames[:8]
     if any("libz3" in x for x in inner):
         return
@@ -88,6 +96,8 @@ def result_class(r):
         return crash_class(r)
     _relabel_hang(r)
     if r.status == "HANG":
+        if r.cmd and str(r.cmd[1].get("hang_is_failure", "")) == "read":
+            return "HANG.read_does_not_return"  # (which frame of the loop the watchdog's signal meets differs from run to run)
         return "HANG." + crash_class(r).split(".", 2)[-1]
     if r.status == "TIMEOUT":
         return "TIMEOUT"
